@@ -3,10 +3,14 @@ package csim
 import (
 	"fmt"
 	"math/rand"
+	"sort"
 	"sync"
 	"time"
 
+	"github.com/spf13/viper"
+
 	"github.com/dappledger/AnnChain/gemmill/consensus/pbft"
+	"github.com/dappledger/AnnChain/gemmill/p2p"
 	"github.com/dappledger/AnnChain/gemmill/types"
 )
 
@@ -207,6 +211,9 @@ func RunLive(dir string, powers []int64, byz []int, maxRound int64, heights int6
 
 // LiveTrace converts recorded events into the ndjson records validated by specs/tendermint/Trace_Tendermint.tla.
 func (s *Sim) LiveTrace(events []LiveEvent, heights int64) []map[string]interface{} {
+	// events are ordered by the sequence number taken when the handler started (see verif_trace_on.go)
+	events = append([]LiveEvent(nil), events...)
+	sort.SliceStable(events, func(i, j int) bool { return events[i].Ev.Seq < events[j].Ev.Seq })
 	// pass 1: name the blocks: an own proposal followed by its own part
 	pend := map[int]*types.Proposal{}
 	propBy := map[string]int{}
@@ -250,12 +257,14 @@ func (s *Sim) LiveTrace(events []LiveEvent, heights int64) []map[string]interfac
 		rec := map[string]interface{}{"n": int64(le.Node), "seq": int64(le.Ev.Seq)}
 		if le.Ev.Kind == "timeout" {
 			rec["a"] = "Timeout"
+			rec["pk"] = int64(0)
 			rec["ti"] = map[string]interface{}{"h": le.Ev.Timeout.Height, "r": le.Ev.Timeout.Round, "st": int64(le.Ev.Timeout.Step)}
 			rec["m"] = map[string]interface{}{"t": "-"}
 		} else {
 			am, err := s.Abstract(le.Node, le.Ev.Msg)
 			if err != nil {
 				rec["a"] = "Unknown"
+				rec["pk"] = int64(0)
 				rec["err"] = err.Error()
 				rec["m"] = map[string]interface{}{"t": "-"}
 			} else {
@@ -282,6 +291,7 @@ func (s *Sim) LiveTrace(events []LiveEvent, heights int64) []map[string]interfac
 					}
 				}
 				rec["m"] = am.AsSpec()
+				rec["pk"] = int64(s.peerIndex(le.Ev.PeerKey))
 			}
 			rec["ti"] = map[string]interface{}{"h": int64(0), "r": int64(0), "st": int64(0)}
 		}
@@ -302,4 +312,95 @@ func (s *Sim) LiveTrace(events []LiveEvent, heights int64) []map[string]interfac
 		out = append(out, rec)
 	}
 	return out
+}
+
+// peerIndex maps the peer key under which a message was delivered to the validator index of that peer (0 = unknown / own).
+func (s *Sim) peerIndex(key string) int {
+	if key == "" {
+		return 0
+	}
+	if i, ok := s.PeerIdx[key]; ok {
+		return i
+	}
+	var k int
+	if _, err := fmt.Sscanf(key, "peer%d", &k); err == nil {
+		return k
+	}
+	return 0
+}
+
+// RunLiveStack is RunLive with the REAL reactor stack instead of the relay: every honest node gets a real ConsensusReactor on a
+// real p2p.Switch, the switches are connected pairwise (p2p.MakeConnectedSwitches over net.Pipe, real MConnections), and all
+// gossip is done by the reactors' own routines. Byzantine validators are simply absent.
+func RunLiveStack(dir string, powers []int64, byz []int, maxRound int64, heights int64, limit time.Duration, scale int) (*Sim, []LiveEvent, error) {
+	pbft.VerifTraceMaxRound = maxRound
+	var (
+		mtx    sync.Mutex
+		events []LiveEvent
+		byCS   = map[*pbft.ConsensusState]int{}
+	)
+	pbft.VerifTraceFn.Store(func(cs *pbft.ConsensusState, ev pbft.VerifEvent) {
+		mtx.Lock()
+		if i := byCS[cs]; i != 0 {
+			events = append(events, LiveEvent{Node: i, Ev: ev})
+		}
+		mtx.Unlock()
+	})
+	defer pbft.VerifTraceFn.Store((func(cs *pbft.ConsensusState, ev pbft.VerifEvent))(nil))
+	s, err := newSimScale(dir, powers, byz, maxRound, true, scale)
+	if err != nil {
+		return nil, nil, err
+	}
+	honest := s.HonestIdx()
+	reactors := make([]*pbft.ConsensusReactor, len(honest))
+	mtx.Lock()
+	for k, i := range honest {
+		n := s.Nodes[i]
+		byCS[n.CS] = i
+		conR := pbft.NewConsensusReactor(n.CS, false)
+		n.CS.BindReactor(conR)
+		conR.SetEventSwitch(n.evsw)
+		reactors[k] = conR
+	}
+	mtx.Unlock()
+	cfg := viper.New()
+	switches := p2p.MakeConnectedSwitches(cfg, len(honest), func(k int, sw *p2p.Switch) *p2p.Switch {
+		sw.AddReactor("CONSENSUS", reactors[k])
+		return sw
+	}, p2p.Connect2Switches)
+	s.PeerIdx = map[string]int{}
+	for k, sw := range switches {
+		s.PeerIdx[sw.NodeInfo().PubKey.KeyString()] = honest[k]
+	}
+	deadline := time.Now().Add(limit)
+	var rerr error
+	for {
+		done := true
+		for _, i := range honest {
+			if s.Nodes[i].Store.Height() < heights {
+				done = false
+			}
+		}
+		if done {
+			break
+		}
+		if time.Now().After(deadline) {
+			rerr = fmt.Errorf("not every honest node committed %d blocks within %v", heights, limit)
+			break
+		}
+		time.Sleep(5 * time.Millisecond)
+	}
+	for _, sw := range switches {
+		sw.Stop()
+	}
+	for _, i := range honest {
+		select {
+		case <-waitCh(s.Nodes[i].CS):
+		case <-time.After(2 * time.Second):
+		}
+	}
+	mtx.Lock()
+	out := append([]LiveEvent(nil), events...)
+	mtx.Unlock()
+	return s, out, rerr
 }
